@@ -109,3 +109,21 @@ Definition judge_kernel (c : kcase) : Z :=
   | Raise IndexError, None => 0
   | _, _ => 3
   end.
+
+(* kernel level, GCXS: GCXS._reduce_calc(method, axis) called directly on the re-compression path.
+   (ufunc code, the re-compressed array x that the implementation built, (data, counts, row numbers, n_cols))
+   0 agree | 1 the index-pointer arithmetic differs from Model/ReduceGcxs.v gcxs_ip_calc | 9 malformed x *)
+From Verif Require Import ReduceGcxs.
+Definition ipcase := (Z * sarr * (list Z * list Z * list Z * Z))%type.
+Definition judge_ip (c : ipcase) : Z :=
+  let '(m, xs, (data, counts, rowids, ncols)) := c in
+  match xs with
+  | SGcxs x =>
+    if negb (gcxs_wfb x) then 9 else
+    match gcxs_ip_calc Z (op_z m) (ufunc_cast m) x with
+    | Ok (d, cn, ri, nc) =>
+      if zl_eqb d data && zl_eqb cn counts && zl_eqb ri rowids && (nc =? ncols) then 0 else 1
+    | Raise _ => 1
+    end
+  | _ => 9
+  end.
